@@ -22,7 +22,8 @@ vars == <<desc, done>>
 
 \* ---- Part 1 ---------------------------------------------------------------------------
 \* item classes of the layout vocabulary (LayoutLib): what a descriptor can be applied to
-NumTypes == {"u8", "u16le", "u16be", "u32le", "u32be", "i32le", "i32be", "u64le", "f32le", "u32le_nz"}
+\* "varint": the Minecraft VarInt length prefixes (frame length, string length) of a Java reply
+NumTypes == {"u8", "u16le", "u16be", "u32le", "u32be", "i32le", "i32be", "u64le", "f32le", "u32le_nz", "varint"}
 TextNumTypes == {"dec_u8", "dec_u16", "dec_u32", "dec_i32", "dec_u31"}
 StrTypes == {"cstr", "lp8", "text", "atext", "ustr", "oneoftext"}
 
@@ -59,7 +60,7 @@ Descriptors ==
 \* AmplifyFill bytes, and nothing follows.  The harness applies it to every (count, string) pair of a well-formed exchange
 \* (sampled in the quick tier).  This is the C13 shape "count x list" (found F34: GameSpy 2 rows x column names).
 Amplify == [op |-> "amplify", window |-> 8, fill |-> 48000]
-AmplifyCount(item) == item.k = "lit" \/ (item.k = "f" /\ item.ty \in (NumTypes \ {"u64le", "f32le", "u32le_nz"}) \cup TextNumTypes)
+AmplifyCount(item) == item.k = "lit" \/ (item.k = "f" /\ item.ty \in (NumTypes \ {"u64le", "f32le", "u32le_nz", "varint"}) \cup TextNumTypes)
 AmplifyRepeat(item) == item.k = "txt" \/ (item.k = "f" /\ item.ty \in StrTypes)
 
 \* Second compound: every numeric extreme (set_num, set_textnum, set_lit_byte) is also delivered with the datagrams of each
